@@ -446,8 +446,9 @@ pub fn apply_via(cfg: &Cfg, s: Box<dyn Subject>, via: Via) -> Box<dyn Subject> {
 }
 
 /// As `replay_last_caught`, but the instance goes through an identity transformation (serde round
-/// trip / clone) right before the last operation.  Every prefix of a history is itself an enumerated
-/// history, so this places the transformation at every position of every history.
+/// trip / clone / clone_from) right before the last operation (and before a reset() that precedes it).
+/// Every prefix of a history is itself an enumerated history, so this places the transformation at
+/// every position of every history.
 pub fn replay_last_via(cfg: &Cfg, ops: &[Op], via: Via) -> Result<Out, usize> {
     if via == Via::Plain || ops.is_empty() {
         return replay_last_caught(cfg, ops);
@@ -457,7 +458,9 @@ pub fn replay_last_via(cfg: &Cfg, ops: &[Op], via: Via) -> Result<Out, usize> {
         let mut s = make(cfg);
         let mut last = Out::NONE;
         for (i, op) in ops.iter().enumerate() {
-            if i + 1 == ops.len() {
+            // right before the last operation - and, when that is preceded by reset(), also right before
+            // the reset (a transformation that loses a "dirty" flag makes the following reset a no-op)
+            if i + 1 == ops.len() || (i + 2 == ops.len() && matches!(op, Op::Reset)) {
                 s = apply_via(cfg, s, via);
             }
             last = s.apply(op);
